@@ -132,31 +132,37 @@ Lemma kf3_refuted : kf_email_url_substring w3 = true /\ fails w3.
 Proof. split; vm_compute; reflexivity. Qed.
 Lemma kf4_refuted : kf_keyword_in_text w4 = true /\ fails w4.
 Proof. split; vm_compute; reflexivity. Qed.
-Lemma kf5_refuted : kf_multibyte_message w5 = true /\ fails w5 /\ field_chain dispf_small w5 = Panic
-                    /\ kf_multibyte_message w5b = true /\ fails w5b.
-Proof. repeat split; vm_compute; reflexivity. Qed.
+(* repaired (char_indices): a multi-byte message is neither cut nor a panic; it is reproduced exactly *)
+Definition holds_b (f : field) : bool :=
+  in_domain f && lits_consistent f && negb (kf_any dispf_small f) &&
+  match field_chain dispf_small f with Panic => false | Ok (_, chain) => c11_field_ok f chain end.
+Lemma fixed5_ok : holds_b w5 = true /\ holds_b w5b = true.
+Proof. split; vm_compute; reflexivity. Qed.
 Lemma kf6_refuted : kf_escape_chain w6 = true /\ fails w6.
 Proof. split; vm_compute; reflexivity. Qed.
-Lemma kf7_refuted : kf_option_below_vec w7 = true /\ fails w7.
+(* repaired (Optional arm passes skip_validation through): the bound stays on the array *)
+Lemma fixed7_ok : holds_b w7 = true /\
+  field_chain dispf_small w7 = Ok (Some {| v_length := Some {| c_min := Some (L "2"); c_max := None; c_msg := None |};
+                                          v_range := None; v_email := false; v_url := false |},
+                                   L "z.array(z.string().optional()).min(2)").
 Proof. split; vm_compute; reflexivity. Qed.
 Lemma kf8_refuted : kf_flag_message w8 = true /\ fails w8.
 Proof. split; vm_compute; reflexivity. Qed.
 Lemma kf9_refuted : kf_f64_inexact dispf_small w9 = true /\ fails w9.
 Proof. split; vm_compute; reflexivity. Qed.
 
-(* each witness lies in its own class only (the classes are independent triggers) *)
+(* each witness lies in its own class only (the classes are independent triggers); the repaired ones in none *)
 Lemma witnesses_separate :
-  map (kf_flags dispf_small) [w1; w2; w3; w4; w5; w6; w7; w8; w9] =
-  [[true; false; false; false; false; false; false; false; false];
-   [false; true; false; false; false; false; false; false; false];
-   [false; false; true; false; false; false; false; false; false];
-   [false; false; false; true; false; false; false; false; false];
-   [false; false; false; false; true; false; false; false; false];
-   [false; false; false; false; false; true; false; false; false];
-   [false; false; false; false; false; false; true; false; false];
-   [false; false; false; false; false; false; false; true; false];
-   [false; false; false; false; false; false; false; false; true]].
-Proof. vm_compute. reflexivity. Qed.
+  map (kf_flags dispf_small) [w1; w2; w3; w4; w6; w8; w9] =
+  [[true; false; false; false; false; false; false];
+   [false; true; false; false; false; false; false];
+   [false; false; true; false; false; false; false];
+   [false; false; false; true; false; false; false];
+   [false; false; false; false; true; false; false];
+   [false; false; false; false; false; true; false];
+   [false; false; false; false; false; false; true]]
+  /\ map (kf_any dispf_small) [w5; w5b; w7] = [false; false; false].
+Proof. split; vm_compute; reflexivity. Qed.
 
 (* a clean field of each kind, for the non-vacuity examples *)
 Definition g1 := fld (TyOpt TyString)
@@ -328,6 +334,16 @@ Proof. intros v k. unfold build_schema. rewrite render_opts. cbn [render_type].
   unfold apply_string_validators, apply_length_validator, length_meths. rewrite !flat_map_app, !app_assoc.
   destruct (v_length v) as [c|]; rewrite ?apply_cstr_show; cbn [flat_map app]; rewrite ?app_nil_r, <- ?app_assoc; reflexivity. Qed.
 
+Lemma build_array_opt_string : forall v k, build_schema (opts k (TsArr (TsOpt (TsPrim (L "string"))))) (Some v) =
+  L "z.array(z.string().optional())" ++ flat_map show_meth (length_meths v ++ repeat MOptional k).
+Proof. intros v k. unfold build_schema. rewrite render_opts. cbn [render_type].
+  unfold render_primitive. change (str_eqb (L "string") (L "string")) with true. cbv iota.
+  unfold apply_string_validators, apply_length_validator, length_meths. rewrite !flat_map_app, !app_assoc.
+  destruct (v_length v) as [c|]; rewrite ?apply_cstr_show; cbn [flat_map app]; rewrite ?app_nil_r, <- ?app_assoc; reflexivity. Qed.
+Lemma read_schema_array_opt_string : forall F T, read_schema (S (S (S (S (S F))))) (L "z.array(z.string().optional())" ++ T) =
+  match read_meths (S (S (S (S F)))) T with
+  | Some (ms, s4) => Some (Sch (L "z.array") [Sch (L "z.string") [] [MOptional]] ms, s4) | None => None end.
+Proof. reflexivity. Qed.
 Lemma read_schema_string : forall F T, read_schema (S (S (S F))) (L "z.string()" ++ T) =
   match read_meths (S (S F)) T with Some (ms, s4) => Some (Sch (L "z.string") [] ms, s4) | None => None end.
 Proof. reflexivity. Qed.
@@ -375,6 +391,18 @@ Proof. intros ms Hok. unfold read_chain.
   replace (S (S (S (S (S (List.length ms + f0)))))) with (S (List.length ms + S (S (S (S f0))))) by lia.
   rewrite read_meths_show by (auto; reflexivity). reflexivity. Qed.
 
+Lemma read_chain_array_opt_string : forall ms, forallb meth_ok ms = true ->
+  read_chain (L "z.array(z.string().optional())" ++ flat_map show_meth ms) =
+  Some (Sch (L "z.array") [Sch (L "z.string") [] [MOptional]] ms).
+Proof. intros ms Hok. unfold read_chain.
+  assert (E : exists f0, List.length (L "z.array(z.string().optional())" ++ flat_map show_meth ms) = S (S (S (S (S (List.length ms + f0)))))).
+  { rewrite app_length. pose proof (len_show ms) as Hl. cbn [L list_ascii_of_string List.length].
+    exists (25 + (List.length (flat_map show_meth ms) - List.length ms)). lia. }
+  destruct E as [f0 E]. rewrite E. rewrite read_schema_array_opt_string.
+  rewrite <- (app_nil_r (flat_map show_meth ms)).
+  replace (S (S (S (S (S (List.length ms + f0)))))) with (S (List.length ms + S (S (S (S f0))))) by lia.
+  rewrite read_meths_show by (auto; reflexivity). reflexivity. Qed.
+
 Lemma optional_ok : forall k, forallb meth_ok (repeat MOptional k) = true.
 Proof. induction k; cbn [repeat forallb meth_ok]; auto. Qed.
 
@@ -396,3 +424,12 @@ Proof. intros v k Hv. unfold va_ok in Hv. apply andb_true_iff in Hv as [Hl Hr].
   - rewrite build_number. apply read_chain_number. rewrite forallb_app, HR, optional_ok. reflexivity.
   - rewrite build_array_string. apply read_chain_array_string. rewrite forallb_app, HL, optional_ok. reflexivity.
 Qed.
+
+(* C11-7 repaired, for every ValidatorAttributes value: on Vec<Option<String>> the element schema stays bare *)
+Theorem render_exact_option_element : forall v k, va_ok v = true ->
+  read_chain (build_schema (opts k (TsArr (TsOpt (TsPrim (L "string"))))) (Some v)) =
+    Some (Sch (L "z.array") [Sch (L "z.string") [] [MOptional]] (length_meths v ++ repeat MOptional k)).
+Proof. intros v k Hv. unfold va_ok in Hv. apply andb_true_iff in Hv as [Hl Hr].
+  assert (HL : forallb meth_ok (length_meths v) = true).
+  { unfold length_meths. destruct (v_length v); [apply cstr_meths_ok; exact Hl|reflexivity]. }
+  rewrite build_array_opt_string. apply read_chain_array_opt_string. rewrite forallb_app, HL, optional_ok. reflexivity. Qed.
